@@ -191,3 +191,50 @@ Proof.
   intros x Hx. destruct (HS2 x Hx) as [Hx1 Px]. split; [exact Px|].
   destruct (HS x Hx1) as [_ [H|[b [[<-|[<-|[<-|[]]]] H]]]]; auto.
 Qed.
+
+(* a -I/-L of the per-target <lang>_args is searched before every directory added earlier -
+   in particular before the custom target output dirs (t_custom, added "before
+   target-specific include directories", ninjabackend.py:3145-3148), the dependencies' and the
+   target's include_directories: in front of it stand only prepended arguments that the
+   target's c_args list before it or the implicit source/build/private dirs *)
+Theorem target_include_args_take_effect cd sp T b1 y b2 :
+  sp y = true -> is_ov cd y = true -> t_targs T = b1 ++ y :: b2 -> ~ In y b1 ->
+  ~ In y (t_srcinc T) -> ~ In y (t_bldinc T) -> ~ In y (t_privinc T) ->
+  exists X S, compile_args cd sp T = X ++ y :: S /\ ~ In y X /\ ~ In y S
+              /\ (forall x, In x X -> sp x = true /\
+                    (In x b1 \/ In x (t_srcinc T) \/ In x (t_bldinc T) \/ In x (t_privinc T))).
+Proof.
+  intros Py Oy ET N1 Ns Nb Np. unfold compile_args.
+  assert (Uy : is_unique cd y = false).
+  { unfold Model.is_unique. unfold Model.is_ov in Oy. destruct (cd y); simpl in *; congruence. }
+  unfold target_increments. rewrite ET.
+  replace (basic_increments T ++ [t_show_dep T; t_custom T] ++ flat_map incobj_increments (rev (t_incs T))
+           ++ [b1 ++ y :: b2; t_srcinc T; t_bldinc T; t_privinc T])
+    with ((basic_increments T ++ [t_show_dep T; t_custom T] ++ flat_map incobj_increments (rev (t_incs T)))
+          ++ (b1 ++ y :: b2) :: [t_srcinc T; t_bldinc T; t_privinc T])
+    by (rewrite <- !app_assoc; reflexivity).
+  destruct (later_added_takes_effect_prepend cd sp []
+              (basic_increments T ++ [t_show_dep T; t_custom T] ++ flat_map incobj_increments (rev (t_incs T)))
+              b1 y b2 [t_srcinc T; t_bldinc T; t_privinc T] Py Oy N1)
+    as [X [S [E [NX [NS HX]]]]].
+  { intros b [<-|[<-|[<-|[]]]]; assumption. }
+  rewrite E.
+  destruct (prepend_position cd sp (eager_iadds cd sp [] (t_single_base T)) X y S Py Uy NX) as [X2 [S2 [E2 [HX2 [NX2 NS2]]]]].
+  rewrite E2. exists X2, S2. split; [reflexivity|]. split; [exact NX2|]. split; [exact (NS2 Oy)|].
+  intros x Hx. destruct (HX2 x Hx) as [Hx1 Px]. split; [exact Px|].
+  destruct (HX x Hx1) as [_ [H|[b [[<-|[<-|[<-|[]]]] H]]]]; auto.
+Qed.
+
+(* the same for a directory of the target's include_directories / an internal dependency's:
+   whatever increment of the include loop adds y (first occurrence in it, no later increment
+   repeats it), in front of y stand only prepended arguments added by that increment before
+   it or by later increments - never a custom target dir, which is added earlier *)
+Theorem custom_dirs_behind_later_includes cd sp T before b1 y b2 later :
+  target_increments T = (basic_increments T ++ [t_show_dep T; t_custom T]) ++ before ++ (b1 ++ y :: b2) :: later ->
+  sp y = true -> is_ov cd y = true -> ~ In y b1 -> (forall b, In b later -> ~ In y b) ->
+  exists X S, eager_iadds cd sp [] (target_increments T) = X ++ y :: S /\ ~ In y X /\ ~ In y S
+              /\ (forall x, In x X -> sp x = true /\ (In x b1 \/ exists b, In b later /\ In x b)).
+Proof.
+  intros E Py Oy N1 NL. rewrite E, app_assoc.
+  apply later_added_takes_effect_prepend; assumption.
+Qed.
